@@ -315,7 +315,9 @@ type SeqCase struct {
 	Texts []string `json:"texts"`
 }
 
-var notLiterals = []string{"invalid", "@cat", "nul", "-", "1x", "", " 1", "tru", `"abc`, "1.", ".5", "+1", "01", "{}", "[]", "1e", "--1", "nulll", "True", "@", "1 2", "\x00", "0x10", "1.0.0", "e5", "-e", "\"", "'a'"}
+var notLiterals = []string{"invalid", "@cat", "nul", "-", "1x", "", " 1", "tru", `"abc`, "1.", ".5", "+1", "01", "{}", "[]", "1e", "--1", "nulll", "True", "@", "1 2", "\x00", "0x10", "1.0.0", "e5", "-e", "\"", "'a'",
+	// numbers the number scanner refuses for their exponent (a failing call of another kind)
+	"1e1000001", "-2.5E-1000001", "7e99999999999999999999", "0e1"}
 
 func guessSeq(c SeqCase) *ev.Verdict {
 	failedBefore := false
@@ -346,14 +348,19 @@ func guessSeq(c SeqCase) *ev.Verdict {
 			failedBefore = true
 			continue
 		}
-		var want string
-		if esc := sut.Trap("json.Guess", func() { want = jjson.Guess(jbytes.NewBytes(s)).JsonType().String() }); esc != nil {
-			continue
-		}
+		// (the function under test is asked first: whatever an earlier call left behind in state shared with
+		// the scanner's classifier must reach it, not the reference call)
 		var got schema.SchemaType
 		var err error
 		if esc := sut.Trap("GuessSchemaType", func() { got, err = schema.GuessSchemaType([]byte(s)) }); esc != nil {
 			return ev.V("guess:panic:"+esc.Frame, "GuessSchemaType(%q) panicked: %s", s, esc.Value)
+		}
+		var want string
+		if esc := sut.Trap("json.Guess", func() { want = jjson.Guess(jbytes.NewBytes(s)).JsonType().String() }); esc != nil {
+			// the scanner's classifier cannot classify this text; asked again it must not have recovered
+			if esc2 := sut.Trap("json.Guess", func() { want = jjson.Guess(jbytes.NewBytes(s)).JsonType().String() }); esc2 != nil {
+				continue
+			}
 		}
 		ans := string(got)
 		if err != nil {
